@@ -84,6 +84,11 @@ func main() {
 		silence()
 		workerMain(os.Args[2], os.Args[3], os.Args[4])
 		fieldcovFlush()
+	case "--selftest":
+		silence()
+		if selftestMain() > 0 {
+			os.Exit(1)
+		}
 	case "--fieldcov-universe":
 		fmt.Println(strings.Join(fieldcovUniverse(), "\n"))
 	case "--replay":
